@@ -287,6 +287,7 @@ pub struct DirData {
     pub lang_dirs: BTreeMap<String, BTreeSet<Dir>>,
     pub version: String,
     pub skipped_root: usize,
+    multi: BTreeSet<String>,
 }
 
 impl DirData {
@@ -325,13 +326,14 @@ impl DirData {
                 d.script_dir.entry(refspec::title(sc.as_bytes())).or_default().insert(dir);
             }
         }
+        d.multi = d.lang_dirs.iter().filter(|(_, x)| x.len() > 1).map(|(l, _)| l.clone()).collect();
         Ok(d)
     }
     /// direction of a script CLDR lists with exactly one direction
     pub fn script(&self, s: &str) -> Option<Dir> {
         self.script_dir.get(s).filter(|d| d.len() == 1).and_then(|d| d.iter().next().copied())
     }
-    pub fn multi_direction_langs(&self) -> BTreeSet<String> {
-        self.lang_dirs.iter().filter(|(_, d)| d.len() > 1).map(|(l, _)| l.clone()).collect()
+    pub fn multi_direction_langs(&self) -> &BTreeSet<String> {
+        &self.multi
     }
 }
